@@ -14,10 +14,16 @@ CLAIMS = {
        "on a number is an error), the whole clause evaluator eval_guard_access_clause on its unary path with a stub "
        "context (per-value truth, some/all fold, SKIP on empty selection, emitted records), the scalar comparison leaf, the "
        "CNF combinator and the named-rule clause, list index arithmetic. It decides ingredients of the documented semantics for "
-       "all values in the bound, not verdicts of parsed programs on loaded documents.",
-  note="NOT covered: the parser, query traversal over documents (*, [*], filters, variables), the binary clause path above the "
-       "scalar comparison leaf (operators.rs does not terminate under CBMC), blocks/when/rules/files with real scopes, functions "
-       "inside clauses. The evaluation context is a harness stub that returns planted query results.",
+       "all values in the bound, not verdicts of parsed programs on loaded documents. The block level and the binary path, which CBMC "
+       "cannot enter, are decided by bounded symbolic execution of their MIR with modelled callees (z3+cvc5): eval_rule, inner `when` "
+       "blocks, query blocks (eval_guard_block_clause: empty selection -> SKIP / FAIL for !empty, unresolved = FAIL, all/some fold over "
+       "<=2 values), type blocks (eval_type_block_clause), binary_operation (a value is PASS iff its comparison outcome is Success; "
+       "Fail / NotComparable / unresolved operands are FAIL; empty operand set = SKIP) and the operator dispatch of CmpOperator::compare.",
+  note="NOT covered: the parser, query traversal over documents (*, [*], filters, variables), the per-pair comparison strategies of "
+       "EqOperation / InOperation / CommonOperator (list flattening, literal-vs-query cases; operators.rs does not terminate under CBMC "
+       "and its iterator-closure code is beyond the MIR executor's call models), functions inside clauses. The Kani evaluation context "
+       "is a harness stub that returns planted query results; the MIR checks model every callee by a symbolic result and keep loops to "
+       "<= 2 iterations (longer selections are cut and counted in the evidence).",
   design="4/C01"),
  "C02": dict(
   text="Bounded model checking of the combinator sites: eval_conjunction_clauses for every leaf outcome vector (PASS/FAIL/SKIP/Err) "
@@ -25,10 +31,12 @@ CLAIMS = {
        "balance; eval_guard_named_clause for every dependent status x negation; the clause-level block record; Status::and algebra. "
        "The rule / file / when sites that Kani cannot reach are decided by bounded symbolic execution of their MIR (lib/mirexec.py, "
        "z3+cvc5): eval_rules_file (<=2 rules: file status = fold, FileCheck record, each rule evaluated through eval_rule exactly once), "
-       "eval_rule and eval_when_condition_block (body evaluated iff the `when` is PASS, else SKIP; status = body status; records).",
+       "eval_rule and eval_when_condition_block (body evaluated iff the `when` is PASS, else SKIP; status = body status; records), "
+       "eval_guard_block_clause and eval_type_block_clause (<=2 selected values: status fold, one body evaluation per resolved value, "
+       "BlockGuardCheck / TypeCheck record carries the returned status, a type block whose `when` is not PASS evaluates nothing).",
   note="The MIR checks model every callee by a symbolic result (e.g. eval_rule returns an arbitrary Result<Status,Error>), unroll loops "
        "twice and treat unknown statements as havoc: they decide the aggregation logic of each function, not the callees. NOT covered: "
-       "type blocks and guard blocks over query values, the real RecordTracker's tree (only call balance through a counting stub), "
+       "filters (check_and_delegate), parameterised rule calls, the real RecordTracker's tree (only call balance through a counting stub), "
        "the JSON rendering.",
   design="4/C02"),
  "C03": dict(
@@ -39,8 +47,11 @@ CLAIMS = {
   note="Binary path: the operator layer (operators.rs) does not terminate under CBMC, so binary clauses are covered only by a MIR-level "
        "dependency check on eval_guard_access_clause (z3+cvc5): along the paths that call binary_operation, some value passed or branched "
        "on must change when gac.negation is flipped. On the pinned tree it did not (prefix `not` ignored on ==,!=,<,<=,>,>=,in: genuine "
-       "defect, replayed through the CLI, fixed in /repo). The value-level effect of the operator-level flag (result flipping table in "
-       "operators.rs) is NOT decided. Parser side of negation not covered.",
+       "defect, replayed through the CLI, fixed in /repo). The operator-level flag is decided on the MIR of `(CmpOperator, bool)::compare` "
+       "and its result-flipping closure: Success always becomes Fail, a value / value-in Fail becomes Success with the same operands, "
+       "NotComparable and unresolved operands are returned unchanged, the operands reach the operator in order, and without the flag the "
+       "result is returned as is. The list-level reverse-diff arithmetic of QueryIn / ListIn outcomes and the parser side of negation "
+       "are NOT decided.",
   design="4/C03"),
  "C04": dict(
   text="Bounded model checking that the real CNF combinator returns the same status for a CNF and for any permutation of its "
@@ -57,9 +68,13 @@ CLAIMS = {
        "'expectation met' exactly by the documented rule for 1..3 definitions. Cross-checked by a MIR->SMT-LIB translation of "
        "get_exit_code decided by z3 and cvc5. validate's per-rules-file logic is decided on MIR (bounded symbolic execution, callees "
        "modelled): evaluate_against_data_input returns FAIL iff some data file's evaluation was FAIL (<=2 data files), evaluate_rule "
-       "maps parse error -> 5, FAIL -> 19, else 0.",
-  note="NOT covered: validate's fold over several rules files in Validate::execute ('last non-zero wins'), the --structured reporters, "
-       "JUnit exit-code update, files/stdin/clap, main(). The MIR checks fix verbose = print_json = false and no input parameters.",
+       "maps parse error -> 5, FAIL -> 19, else 0; the loop of Validate::execute over rules files (both the file and the --payload "
+       "call site) preserves, step by step from an arbitrary state, the invariant [exit code 0 iff nothing failed or errored; 19 if only "
+       "FAILs were seen; 5 if only parse errors were seen]; the --structured json/yaml/sarif reporter returns 19 iff some (document, rules "
+       "file) evaluation was FAIL and otherwise the code carried in; JunitReporter::update_exit_code is error > failure > success for all "
+       "i32 pairs; get_test_case marks a case Pass/Skip/Fail exactly by status.",
+  note="NOT covered: StructuredEvaluator::evaluate's try_fold over rules files (closure), the JUnit report loop (try_fold closure), "
+       "`test`'s reporters, files/stdin/clap, main(). The MIR checks fix verbose = print_json = false and no input parameters.",
   design="4/C06"),
  "C08": dict(
   text="Panic-freedom (Kani's panic/overflow/bounds/unwrap checks) of every harnessed kernel for all inputs in its bound, in particular "
@@ -74,13 +89,27 @@ CLAIMS = {
        "operators.rs match_value. K14 stubs values::read_from (forced to fail) and str::trim (identity).",
   design="4/C08"),
  "C09": dict(
-  text="Bounded model checking of the combination rule only: FileReport::combine / Status::and over up to 4 parts give FAIL iff some "
-       "part FAIL, PASS iff none FAIL and some PASS, else SKIP, independent of order; no 'Incompatible to merge' panic for equal names.",
+  text="Bounded model checking of the combination rule: FileReport::combine / Status::and over up to 4 parts give FAIL iff some "
+       "part FAIL, PASS iff none FAIL and some PASS, else SKIP, independent of order; no 'Incompatible to merge' panic for equal names. "
+       "The partition is decided on the MIR of simplified_json_from_root (<=2 rule records, z3+cvc5): a rule name goes to `compliant` iff "
+       "its RuleCheck status is PASS, to `not_applicable` iff SKIP, to neither for FAIL; the two sets are distinct; the report status is "
+       "the FileCheck status; not_compliant is built from the same child records.",
   note="Also decided (MIR, z3+cvc5): eval_rules_file writes its records by evaluating every rule through eval_rule exactly once per "
        "iteration - the precondition for every rule to appear in the report (a rule served from the status cache writes no RuleCheck "
-       "record). NOT covered: the partition itself (simplified_json_from_root) and clause attribution (report builder: 18 min timeout "
-       "on a 2-rule tree), the serialised JSON.",
+       "record). NOT covered: clause attribution (report_all_failed_clauses_for_rules: ~15 record shapes, recursive), that every FAIL rule "
+       "appears in not_compliant, the serialised JSON.",
   design="4/C09"),
+ "C12": dict(
+  text="Bounded symbolic execution (MIR, callees modelled, value identities tracked; z3+cvc5) of the three validate loops that pair "
+       "rules files with documents: CommonStructuredReporter::report (<=2 documents x <=2 rules files), get_test_case (JUnit path) "
+       "and evaluate_against_data_input (plain mode, <=2 documents): every pair is evaluated exactly once, in a scope that root_scope "
+       "built from exactly that rules file and that document; the scope handed to eval_rules_file is the one created for the pair and "
+       "is never reused; the evaluation is labelled with that document's name; each pair's report is the one combined into the "
+       "document's report.",
+  note="This decides the wiring of the loops (which values reach root_scope / eval_rules_file), i.e. that no evaluation state object is "
+       "shared between pairs; it does NOT decide that RootScope holds all mutable state, directory walking / ordering (-a / -m), "
+       "input-parameter merging, nor the `test` command's loops (closure-based). No Kani harness serves this property.",
+  design="0b/C12"),
  "C13": dict(
   text="Bounded model checking of the comparison kernel: for ALL pairs of i64, ALL pairs of f64 (NaN => not comparable, -0.0 == 0.0), "
        "all pairs of chars, bools, null and all strings up to 2 (thorough: 3) characters: exactly one of <,==,> ; <= and >= decompose; "
@@ -88,8 +117,9 @@ CLAIMS = {
        "membership for all bounds and all 256 inclusive-bit patterns == the two bound comparisons; values of different kinds (15 "
        "unordered pairs of kinds, payload symbolic) never satisfy any operator and are reported NotComparable; ordering operators "
        "never hold on bools or on value-vs-range.",
-  note="NOT covered: lists and maps (heap recursion), regex matching (engine stubbed out), `in` lists, and how the clause level turns "
-       "NotComparable into FAIL (operators.rs).",
+  note="Clause level (MIR, z3+cvc5): NotComparable outcomes are reported FAIL by binary_operation and stay NotComparable under the "
+       "operator-level `not` (flip table); each of < <= > >= is dispatched to its own comparison function. NOT covered: lists and maps "
+       "(heap recursion), regex matching (engine stubbed out), `in` lists.",
   design="4/C13"),
  "C16": dict(
   text="Bounded model checking of the expectation-matching kernel get_status_result (1..3 definitions x all statuses x all expectations: "
@@ -109,12 +139,13 @@ CLAIMS = {
   design="4/C18"),
 }
 
+MIR_ONLY = {"C12"}
+
 NA = {
  "C05": "needs fresh hash seeds/processes; symbolic SipHash keys through hashbrown and the serde/console writers are beyond CBMC (a HashMap with unknown keys timed out at 10 min on two inserts)",
  "C07": "whole-program cross-format property over serde_json/serde_yaml/quick-xml/clap/file I/O; no bounded kernel the solver can be pointed at",
  "C10": "path construction and value cloning drop/clone heap-held PathAwareValues and positions come from libyaml marks; the chain (loader -> operators.rs -> report builder) is out of CBMC's reach",
  "C11": "unsafe-libyaml (transpiled C) + serde_yaml text parsing and str::parse::<f64> on symbolic bytes are not feasible CBMC targets; the equivalence is across three loaders",
- "C12": "a property of I/O loops that build one RootScope per (rules, data) pair; only observable through full batch runs with file I/O and the whole evaluator",
  "C14": "nom/LocatedSpan combinators do not terminate under CBMC even on a 2-byte symbolic input (18 min, 7 GB); the parser is outside this technique on this image",
  "C15": "requires the real scope chain (six HashMaps per scope), lazily memoised resolution and query traversal in eval_context.rs, which CBMC does not get through",
  "C17": "PathAwareValue::merge consumes two IndexMap<String, PathAwareValue> (hashing of symbolic keys + heap value moves); the double implementation of the merge is in I/O code",
@@ -135,10 +166,12 @@ def main():
             "thorough_cmd": f"./check {pid} --tier thorough",
             "evidence_file": f"/verif/evidence/{pid}.json",
             "replay_cmd_template": f"./check {pid} --replay {{path}}",
-            "engine": "kani-cbmc",
+            "engine": "mir-smt" if pid in MIR_ONLY else "kani-cbmc",
             "level_claimed": {"category": "model_checking", "text": c["text"], "design_ref": "DESIGN.md section " + c["design"]},
             "level_note": TB + c["note"],
-            "technique": "bounded symbolic execution of the real Rust code: Kani 0.68 / CBMC 6.11 (SAT, CaDiCaL) on the compiled crate + path-by-path symbolic execution of the crate's MIR to SMT-LIB decided by z3 and cvc5",
+            "technique": ("bounded path-by-path symbolic execution of the crate's MIR (regenerated from the current tree) to SMT-LIB, decided by z3 and cvc5; candidates replayed through the real CLI"
+                          if pid in MIR_ONLY else
+                          "bounded symbolic execution of the real Rust code: Kani 0.68 / CBMC 6.11 (SAT, CaDiCaL) on the compiled crate + path-by-path symbolic execution of the crate's MIR to SMT-LIB decided by z3 and cvc5"),
         })
     na = [{"property_id": p, "reason": NA[p]} for p in props if p not in CLAIMS]
     assert set(props) == set(CLAIMS) | set(NA)
@@ -153,10 +186,10 @@ def main():
             "add_only": True,
         },
         "engines": [
-            {"name": "kani-cbmc", "path": "/verif/check", "serves_properties": sorted(CLAIMS),
+            {"name": "kani-cbmc", "path": "/verif/check", "serves_properties": sorted(set(CLAIMS) - MIR_ONLY),
              "kind_free_text": "Kani 0.68 (rustc MIR -> goto-program) + CBMC 6.11 (symbolic execution, bit-blasting, CaDiCaL) over the real cfn-guard crate; counterexamples replayed natively with cargo kani playback"},
-            {"name": "mir-smt", "path": "/verif/lib/mirsmt.py", "serves_properties": ["C01", "C02", "C03", "C04", "C06", "C08", "C09", "C13", "C16"],
-             "kind_free_text": "nightly -Zunpretty=mir dump of the current tree; lib/mirsmt.py (loop-free kernels, havoc-mode overflow/negate site search), lib/mirexec.py (bounded path enumeration with call models, loop unrolling, value identities) and lib/miragg.py (aggregation, memoisation, index and negation-flow obligations) emit SMT-LIB2 decided by z3 4.8.12 and cvc5 1.0 (must agree); candidates are replayed through the real CLI built from the scratch copy"},
+            {"name": "mir-smt", "path": "/verif/lib/mirsmt.py", "serves_properties": ["C01", "C02", "C03", "C04", "C06", "C08", "C09", "C12", "C13", "C16"],
+             "kind_free_text": "nightly -Zunpretty=mir dump of the current tree; lib/mirsmt.py (loop-free kernels, havoc-mode overflow/negate site search), lib/mirexec.py (bounded path enumeration with call models, loop unrolling, value identities) and lib/miragg.py / mirblocks.py / mirflow.py (aggregation, memoisation, index, negation-flow, block, operator-layer, wiring and exit-code obligations) emit SMT-LIB2 decided by z3 4.8.12 and cvc5 1.0 (must agree); candidates are replayed through the real CLI built from the scratch copy"},
         ],
         "checks": checks,
         "notes": "Solver-based checking only (see DESIGN.md). exit 0 = held within the stated bounds; exit 1 + VIOLATION line = natively reproduced counterexample; exit 2 = inconclusive (timeout, OOM, harness no longer compiles, vacuous harness, non-reproducing counterexample) - never reported as success. Genuine defects found and fixed: known_findings.json.",
